@@ -401,6 +401,20 @@ def run_check(prop, tier):
             path = write_replay(prop, seed, v["index"], hss, kind, v["sig"], v["detail"], small, info,
                                 history=history)
             ok, text = replay_file(path)
+            if not ok and kind == "invariant":
+                # the persistent minimisation worker carried state from one candidate to the next (the change
+                # under test keeps process-wide state the harness does not know): minimise again with a
+                # fresh interpreter per candidate, including what ran earlier in the batch worker
+                os.unlink(path)
+                chunk = int(cfg.get("chunk", 200))
+                first = (v["index"] // chunk) * chunk
+                earlier = [mod.generate(R.rng_for(seed, prop, j), cfg) for j in range(first, v["index"])]
+                small, history, info = minimise_history(prop, mod, v["run"], v["sig"], hss[0], earlier)
+                if info.get("reproduced"):
+                    kind = "history"
+                    path = write_replay(prop, seed, v["index"], hss, kind, v["sig"], v["detail"], small, info,
+                                        history=history)
+                    ok, text = replay_file(path)
             if not ok:
                 print(f"HARNESS-ERROR: minimised replay {path} did not reproduce: {text}", flush=True)
                 rc = max(rc, EXIT_HARNESS)
